@@ -89,6 +89,7 @@ def cases(tier, seed):
             out.append({"k": "namesrow", "g": g, "r": r, "i": i})
         out.append({"k": "shapes", "g": g, "r": r})
         out.append({"k": "numeric", "g": g, "r": r})
+        out.append({"k": "twins", "g": g, "r": r})
     if tier == "thorough":
         from .C18 import CPU_CONFIGS
         for name in CPU_CONFIGS:
@@ -248,6 +249,15 @@ def run_case(case, R):
                 S = sign_matrix(elems_of(ma), elems_of(mb), names, g, r).reshape(())
                 check_ops(R, a, b, S, f"names {sa['n']} vs {sb['n']}: {sa['t']} ? {sb['t']}", tags + ["names"],
                           sub=None)
+        elif k == "twins":
+            seq = [sp for sp in space.twin_sequence() if not sp["s"]]
+            for i, (sa, sb) in enumerate(zip(seq, seq[1:] + seq[:1])):
+                a, b = build_checked(sa), build_checked(sb)
+                ma, mb = model_of(sa), model_of(sb)
+                names = all_names(ma, mb)
+                S = sign_matrix(elems_of(ma), elems_of(mb), names, g, r).reshape(())
+                check_ops(R, a, b, S, f"twins {i}: {sa['n']}{sa['t']} ? {sb['n']}{sb['t']}", tags + ["twins"])
+                R.state(("twins", g, r, i))
         elif k == "shapes":
             names = ("q0", "q1")
             pool = C01.POOLS["int"][1] + [[((0, 0), 2)], [((0, 0), -1)], [((2, 0), 1)]]
